@@ -7,6 +7,7 @@ import (
 	"context"
 
 	api "k8s.io/api/core/v1"
+	discoveryv1 "k8s.io/api/discovery/v1"
 	networking "k8s.io/api/networking/v1"
 	metav1 "k8s.io/apimachinery/pkg/apis/meta/v1"
 	"k8s.io/client-go/util/workqueue"
@@ -66,6 +67,10 @@ func zzHandler(hs []*hdlr, res types.ResourceType, sample client.Object) *hdlr {
 		switch sample.(type) {
 		case *api.Endpoints:
 			if _, ok := h.typ.(*api.Endpoints); !ok {
+				continue
+			}
+		case *discoveryv1.EndpointSlice:
+			if _, ok := h.typ.(*discoveryv1.EndpointSlice); !ok {
 				continue
 			}
 		}
@@ -129,7 +134,7 @@ func VerifC14_Batches() {
 			// longer histories over the two ConfigMaps and swaps only (data chaining)
 			op = []int{0, 1, 5}[nd.Choice("op", 3)]
 		} else {
-			op = nd.Choice("op", 6)
+			op = nd.Choice("op", 7)
 		}
 		if op == 5 {
 			// the reconciler takes its batch
@@ -213,6 +218,16 @@ func VerifC14_Batches() {
 			o := zzSecret{Secret: &api.Secret{ObjectMeta: metav1.ObjectMeta{Namespace: "default", Name: name}}, w: w}
 			zzFire(ctx, h, evt, o, o, q)
 			full = "default/" + name
+		case 6: // EndpointSlice: linked under the name of its Service (label), else its own name
+			res = types.ResourceEndpoints
+			h := zzHandler(hs, res, &discoveryv1.EndpointSlice{})
+			o := &discoveryv1.EndpointSlice{ObjectMeta: metav1.ObjectMeta{Namespace: "default", Name: name + "-x7k2p"}}
+			full = "default/" + name + "-x7k2p"
+			if nd.Bool("slice.label") {
+				o.Labels = map[string]string{"kubernetes.io/service-name": name}
+				full = "default/" + name
+			}
+			zzFire(ctx, h, evt, o, o, q)
 		case 4: // Ingress, with class transitions on update
 			res = types.ResourceIngress
 			h := zzHandler(hs, res, nil)
